@@ -122,6 +122,7 @@ class Constraints(object):
     """
     # Ignore unlabeled samples
     known_labels_mask = self.partial_labels >= 0
+    known_labels_idx, = np.where(known_labels_mask)
     known_labels = self.partial_labels[known_labels_mask]
     X = X[known_labels_mask]
 
@@ -199,7 +200,9 @@ class Constraints(object):
                                          k_genuine_vec[i],
                                          k_impostor_vec[i])
 
-    return triplets
+    # the neighbors were searched among the labeled points only: map their
+    # positions back to indices of the caller's array
+    return known_labels_idx[triplets]
 
   def _pairs(self, n_constraints, same_label=True, max_iter=10,
              random_state=np.random):
